@@ -1306,12 +1306,12 @@ RULE = ('kind attr: histories of 1-12 mapping operations (item/attribute set, ge
         'empty baskets / sequences / feature lists included) compared with the object-identity model on every step result and on the '
         'canonical object-graph dump; non-trivial = history that reaches a nested object or mixes operation kinds (attr), or '
         'contains copy / re-wrap / reference assignment (heap)')
-TRUSTED = ['copy.deepcopy, object identity, reference semantics and collections.abc.MutableMapping mixins of CPython (deepcopy is '
-           'modelled as read-and-rebuild, exact on tree-shaped objects; shared/cyclic objects only by the real-object histories)',
+TRUSTED = ['copy.deepcopy, object identity, reference semantics and collections.abc.MutableMapping mixins of CPython (heap model: deepcopy is '
+           'modelled as read-and-rebuild, exact on tree-shaped objects; object model: graph copy incl. shared / cyclic objects)',
            'modelled: sugar/core/meta.py Attr/Meta (meta.py:10-81: __init__, __getitem__, __setitem__, __delitem__, __getattr__, '
            '__setattr__, __delattr__, copy, update, __iter__, __len__) as values (C18_Model.v) and over a heap (C18_Heap.v)',
-           'NOT modelled, tied by randomized histories on the real classes only: copy() and in-place / not-in-place behaviour of '
-           'BioSeq, BioBasket, FeatureList, Feature, Location (seq.py, fts.py, cane.py)',
+           'NOT modelled, tied by randomized histories on the real classes only: translate, match, find_orfs, set operators, '
+           'rc(update_fts=True), FeatureList slice / rc / sort / filter, Feature and Location edits (seq.py, fts.py, cane.py)',
            'tools/gens/c18.py: the reserved key set R is regenerated from dir(Meta) on every run; the table of the BioSeq.str / '
            'BioBasket.str namespaces (which methods return the receiver, for baskets with 0, 1, 2 sequences) is regenerated by calling them',
            'object model (C18_Obj.v): BioSeq / BioBasket / FeatureList / Feature / LocationTuple / Location / Meta as cells with identities; '
@@ -1363,7 +1363,7 @@ LEVEL_TEXT = ('Machine-checked Coq theorems (60, all closed under the global con
               'through the public API, compared on every step result incl. "is" with every variable and on the whole object graph with '
               'identities numbered in first-visit order); the remaining BioSeq / Feature / Location operations are decided by randomized operation '
               'histories and deterministic matrices on real objects (testing, not proof).')
-LEVEL_NOTE = ('Proved for the models only; the models are tied to /repo by testing (0 disagreements over 36 033 cases in the thorough tier, 659 s). '
+LEVEL_NOTE = ('Proved for the models only; the models are tied to /repo by testing (0 disagreements over 36 033 cases in the thorough tier, 580 s; quick 1 733 cases, 39 s). '
               'All 24 statements of the 9 modelled Attr methods (meta.py) are executed in the quick tier; none is unreachable; of the modelled seq.py functions only the tuple-index branches of BioBasket.__setitem__ (seq.py:886-891) and data[\'meta\'] of BioBasket.__init__ (seq.py:661) are not reached (not modelled). '
               'Trusted: Coq kernel/vm_compute, copy.deepcopy and CPython reference semantics (heap model: deepcopy as read-and-rebuild, exact '
               'for tree-shaped objects, decided by tree_shaped; object model: deepcopy as graph copy over the reachable set computed by a '
